@@ -687,6 +687,12 @@ fn main() {
             let _ = std::fs::remove_dir_all(&sc.dir);
         }
     }
+    // intent-to-add entries whose worktree file changed afterwards: all of them in every tier
+    for k in scenario::CORPUS..scenario::CORPUS + scenario::ITA_CORPUS {
+        let sc = scenario::build(k, Some(k), &scratch);
+        run_scenario(&mut rep, &sc);
+        let _ = std::fs::remove_dir_all(&sc.dir);
+    }
     let n = args.budget(20, 250);
     for i in 0..n {
         let seed = args.seed * 10_000 + i;
